@@ -153,6 +153,14 @@ class Profile(object):
 _SINK = io.StringIO()
 
 
+def scribble(np, buf):
+    """overwrite a mutable container that was passed to a monitor (a caller re-using its working buffer)"""
+    if isinstance(buf, list):
+        buf[:] = [-777.125] * len(buf)
+    elif isinstance(buf, np.ndarray) and buf.ndim:
+        buf[...] = -777.125
+
+
 def make_monitor(M, cls, k, tag):
     if k == NULLK:
         return M.Null(), None
@@ -228,10 +236,13 @@ def replay_script(M, np, sc, cls, prof, report, corrupt=False, views=False):
                 with cm:
                     if name == "call":
                         m = heap[slots[a - 1]]
+                        xarg, yarg = prof.x(c[0]), prof.y(c[1])
                         if c[2] == NONE:
-                            m(prof.x(c[0]), prof.y(c[1]))
+                            m(xarg, yarg)
                         else:
-                            m(prof.x(c[0]), prof.y(c[1]), prof.id(c[2]))
+                            m(xarg, yarg, prof.id(c[2]))
+                        # the caller re-uses its buffers: what was RECORDED is the value at the time of the call
+                        scribble(np, xarg); scribble(np, yarg)
                         tgt = slots[a - 1]
                     elif name == "slice":
                         new = heap[slots[a - 1]][slice(none(sl[0]), none(sl[1]), none(sl[2]))]
@@ -530,6 +541,7 @@ def replay_file(M, G, np, st, j, report, corrupt=False):
                 for x, y, idv in calls:
                     if idv is None: mon(x, y)
                     else: mon(x, y, idv)
+                    scribble(np, x); scribble(np, y)     # buffers re-used by the caller after the call
         except Exception as ex:
             report("mon:%s:call:raises-%s:%s" % (cls, type(ex).__name__, tag), dict(info, error=repr(ex)),
                    "%s(interval=%s, k=%s) called with x:%s y:%s traj=%s raised %r" % (cls, st["ival"], k, xk, yk, st["traj"], ex))
